@@ -157,11 +157,22 @@ class Run:
 
     # -- classification ------------------------------------------------------------------------
     def classify(self):
+        ignore = [re.compile(x) for x in self.spec.get("ignore_failed", ())]
         for h in self.harnesses():
             r = self.results.get(h.name)
             if r is None:
                 self.inconclusive.append("%s: no result" % h.name)
                 continue
+            if ignore and r.status == "FAILED" and h.expect != "twin":
+                # checks that belong to Kani's C model of the allocator and are not part of what this property claims
+                # (memory-safety checks are off for these harnesses); see DESIGN.md C01
+                kept = [(d, l) for d, l in r.checks_failed if not any(rx.search(d) for rx in ignore)]
+                if len(kept) != len(r.checks_failed):
+                    self.notes.append("%s: %d failed allocator-model check(s) ignored (not claimed): %s" %
+                                      (h.name, len(r.checks_failed) - len(kept), sorted({d for d, _ in r.checks_failed if (d, _) not in kept})[:3]))
+                    r.checks_failed = kept
+                    if not kept:
+                        r.status = "SUCCESS"
             if h.expect == "twin":
                 if r.status != "FAILED":
                     self.inconclusive.append("%s: vacuity twin did not fail (status %s)" % (h.name, r.status))
